@@ -55,11 +55,11 @@ pub enum Case {
 pub struct C18;
 
 /// block spacing in seconds; 0 = a new block within the same second (sub-second block times)
-const DTS: [u64; 11] = [15, 1, 60, 900, 901, 3600, 7, 86400, 450, 300, 0];
+const DTS: [u64; 14] = [15, 1, 60, 900, 901, 3600, 7, 86400, 450, 300, 0, 604_800, 259_200, 1_000_000];
 
 fn block_strategy() -> impl Strategy<Value = Block> {
     (
-        0u8..11,
+        0u8..14,
         0u16..1000,
         proptest::collection::vec(swap_strategy(), 0..=4),
         proptest::collection::vec(any::<u16>(), 1..=4),
@@ -69,7 +69,7 @@ fn block_strategy() -> impl Strategy<Value = Block> {
 
 fn interval_from(knob: u16, now: u64, hist: &[(u64, u128)]) -> u64 {
     let age = now - hist[0].0;
-    let tab: [u64; 12] = [900, 15, 60, 1, 3600, 901, 86400, age, age + 1, age.saturating_sub(1).max(1), 1_000_000, 450];
+    let tab: [u64; 15] = [900, 15, 60, 1, 3600, 901, 86400, age, age + 1, age.saturating_sub(1).max(1), 1_000_000, 450, 604_800, 604_801, 2_000_000];
     let i = idx(knob, tab.len() + 2);
     if i < tab.len() {
         tab[i].max(1)
@@ -358,7 +358,7 @@ impl Property for C18 {
         tier.pick(200_000, 6_000_000)
     }
     fn rule(&self) -> String {
-        "vAMM flavour (3/5 of the cases): generated reserves and block schedules (gaps 0 s .. 1 day, block times with a sub-second fraction) with 0-4 swaps per block through the real entry points; the harness records (block time, block-final spot) for every block with an accepted swap plus the creation entry; after each block TwapPrice{i} is queried for intervals shorter / equal / longer than the history, aligned with and just inside snapshot lifetimes: the answer must lie between the lowest and highest recorded price in effect in [now-i, now] (whole history if shorter), equal spot when the price did not change in the window, and agree (+-1) with the reference time-weighted mean over the block-final prices. Feed flavour: generated round sequences on the real price feed, submitted singly and in AppendMultiplePrice batches (non-decreasing timestamps incl. repeats, not in the future); GetTwapPrice within the bounds of the submissions overlapping the window, GetPrice = last submission, GetPreviousPrice{n} for n < rounds answers with exactly the (rounds-n)-th submission, and any successful answer for larger n would have to be a submitted round. Queries that error or panic give no value and are counted, not judged. Non-trivial: vAMM: a window starting strictly inside a snapshot's lifetime with >= 3 distinct prices in the history and a block with >= 2 swaps; feed: >= 3 submissions and a window overlapping different prices. Distinct by digest of the case.".into()
+        "vAMM flavour (3/5 of the cases): generated reserves and block schedules (gaps 0 s .. 11 days, so that histories and query intervals longer than a week occur; block times with a sub-second fraction) with 0-4 swaps per block through the real entry points; the harness records (block time, block-final spot) for every block with an accepted swap plus the creation entry; after each block TwapPrice{i} is queried for intervals shorter / equal / longer than the history, aligned with and just inside snapshot lifetimes: the answer must lie between the lowest and highest recorded price in effect in [now-i, now] (whole history if shorter), equal spot when the price did not change in the window, and agree (+-1) with the reference time-weighted mean over the block-final prices. Feed flavour: generated round sequences on the real price feed, submitted singly and in AppendMultiplePrice batches (non-decreasing timestamps incl. repeats, not in the future); GetTwapPrice within the bounds of the submissions overlapping the window, GetPrice = last submission, GetPreviousPrice{n} for n < rounds answers with exactly the (rounds-n)-th submission, and any successful answer for larger n would have to be a submitted round. Queries that error or panic give no value and are counted, not judged. Non-trivial: vAMM: a window starting strictly inside a snapshot's lifetime with >= 3 distinct prices in the history and a block with >= 2 swaps; feed: >= 3 submissions and a window overlapping different prices. Distinct by digest of the case.".into()
     }
     fn assumptions(&self) -> Vec<String> {
         vec!["mock dependencies stand in for the chain; block times strictly increase".into()]
